@@ -3,12 +3,14 @@ package p07
 
 import (
 	"bytes"
+	"context"
 	"fmt"
 	"os"
 	"os/exec"
 	"path/filepath"
 	"strings"
 	"testing"
+	"time"
 
 	"pgregory.net/rapid"
 	"verif/harness/corpus"
@@ -81,12 +83,14 @@ func cli(c Case, formatted string) *h.Failure {
 	defer os.RemoveAll(dir)
 	run := func(text string, viaFile bool) (int, string) {
 		var cmd *exec.Cmd
+		ctx, cancel := context.WithTimeout(context.Background(), 60*time.Second)
+		defer cancel()
 		if viaFile {
 			f := filepath.Join(dir, "p.evy")
 			os.WriteFile(f, []byte(text), 0o644) //nolint:errcheck
-			cmd = exec.Command(bin, "fmt", "-c", f)
+			cmd = exec.CommandContext(ctx, bin, "fmt", "-c", f)
 		} else {
-			cmd = exec.Command(bin, "fmt", "-c")
+			cmd = exec.CommandContext(ctx, bin, "fmt", "-c")
 			cmd.Stdin = strings.NewReader(text)
 		}
 		var buf bytes.Buffer
